@@ -18,9 +18,9 @@ from vplib.common import VERIF
 
 MANIFEST = dict(
     category="proof",
-    text="partial. Coq theorems on the executable model of compatibility.rs and of the executor's table lookups: the first-occurrence rule of TypeIndex, table_is_relation (a tag is in a pattern's row iff the tag's type is assignable to the pattern; functions by type_id, builtins via callable_to_type, processes via (receive, result), resources by name; a tuple id without a Type::Tuple entry is never accepted), istype_is_relation, istype_sound relative to C09's compat_sound (cycle-free fragment, side conditions explicit), istype_complete under has_type_entry (with the transitivity instance as a hypothesis in general; WITHOUT it on the cycle-free fragment, by C09's compat_trans_partial), parameter tables (rows cover every function; permissive only when absent; param_compat=false accepts everything). NOT a theorem: soundness on the recursive fragment (C09's gap), equality of verdicts across configurations (checked on every run on structural images of the real tables). Every run compares the model's three tables with the real ones for every harvested program in three configurations and runs generated (value, type) pairs through real programs against the value semantics of Sem.v.",
+    text="partial. Coq theorems on the executable model of compatibility.rs and of the executor's table lookups: the first-occurrence rule of TypeIndex, table_is_relation (a tag is in a pattern's row iff the tag's type is assignable to the pattern; functions by type_id, builtins via callable_to_type, processes via (receive, result), resources by name; a tuple id without a Type::Tuple entry is never accepted; since the F70 repair 5eb967d the tables are computed over the program's types extended with the process type of every function that has none - process_has_type_entry: every function's process tag has a type entry, xreg_keeps_ids: no id of the program changes), istype_is_relation, istype_sound relative to C09's compat_sound (cycle-free fragment, side conditions explicit), istype_complete under has_type_entry (with the transitivity instance as a hypothesis in general; WITHOUT it on the cycle-free fragment, by C09's compat_trans_partial), parameter tables (rows cover every function; permissive only when absent; param_compat=false accepts everything). NOT a theorem: soundness on the recursive fragment (C09's gap), equality of verdicts across configurations (checked on every run on structural images of the real tables). Every run compares the model's three tables with the real ones for every harvested program in three configurations and runs generated (value, type) pairs through real programs against the value semantics of Sem.v.",
     design_ref="§5 C08",
-    note="Trusted: Coq kernel, extraction, OCaml driver, Rust harness, generators. The end-to-end generator avoids nil values/types (F13, F27 shapes) and gives every value its own type as a member of the static union (so the compile-time narrowing of C09's known finding F25 is not exercised); process values are not generated end-to-end (F70 is pinned as a model witness).",
+    note="Trusted: Coq kernel, extraction, OCaml driver, Rust harness, generators. The end-to-end generator avoids nil values/types (F13, F27 shapes) and gives every value its own type as a member of the static union (so the compile-time narrowing of C09's known finding F25 is not exercised); process values are not generated end-to-end (the harness's single-executor loop cannot run inter-process replies): F70 (fixed 5eb967d) is a regression statement of the model (C08_F70_repaired) and a table-level must-pass probe (corpus/c08_entry_pid.txt: the entry process's tag occurs in a row in every configuration).",
     technique="Coq proof on an executable model + model/code correspondence on real tables + end-to-end verdict oracle",
 )
 
@@ -400,6 +400,11 @@ def run(ctx):
         for _ in range(1500):
             a, b = rng.choice(harvested), rng.choice(harvested)
             lines.append(sexpr.quote(sexpr.parse(a) + ",\n" + sexpr.parse(b)))
+    # F70 (fixed 5eb967d) regression probes: the entry process's own pid must be accepted somewhere
+    # (a pattern row or a receive filter) in EVERY configuration; as found no row at all contained it
+    entry_pid_at = len(lines)
+    entry_pid_probes = load_corpus("c08_entry_pid.txt")
+    lines += entry_pid_probes
     # targeted templates (each also executed in its three configurations further down)
     tmpl = []        # (source, expected ints or None)
     for src in load_corpus("c08_run.txt"):
@@ -419,7 +424,9 @@ def run(ctx):
     config_failures = []
     entry_lost = []      # a constructible tuple tag lost its Type::Tuple entry through tree-shaking / merging
     entry_dependent = []  # verdict differs between configurations only because the tag lacks a type entry in one
-    untyped_entry = []   # F70c08: the entry function's process tag has no Process type entry
+    untyped_entry = []   # the entry function's process type is not in the program's own table (F70c08's old signature;
+                         # since 5eb967d the tables are computed with it appended — informational)
+    entry_pid_rejected = []  # F70 regression probes where no row contains the entry process's tag
     for li, o in enumerate(out):
         kind = o[1:o.find(" ")] if " " in o else o.strip("()")
         outcome_hist[kind] = outcome_hist.get(kind, 0) + 1
@@ -428,6 +435,11 @@ def run(ctx):
                 ctx.violation({"kind": "impl-violation", "statement": "panic while compiling/packaging/merging", "case": lines[li], "real_output": o[:400]})
             continue
         cs = cfgs_of(o)
+        if entry_pid_at <= li < entry_pid_at + len(entry_pid_probes):
+            for name, inp, tab, st in cs:
+                m = re.search(r"\(entry (\d+)\)", inp)
+                if not m or ("(p %s)" % m.group(1)) not in tab:
+                    entry_pid_rejected.append((li, name))
         structs = []
         for name, inp, tab, st in cs:
             base = re.sub(r"-\d+$", "", name)
@@ -472,15 +484,12 @@ def run(ctx):
                 li, name = owner[k]
                 table_reports.append({"kind": "correspondence-broken", "correspondence": "Compat.v vs compatibility.rs tables (%s)" % name,
                                       "case": lines[li], "input": inputs[k][:3000], "real": rt[:3000], "model": mt[:3000]})
-    if untyped_entry:
-        li, name = untyped_entry[0]
-        f = ctx.findings.get("F70c08")
-        obj = {"kind": "impl-violation", "statement": "istype_complete / has_type_entry: the entry function's process tag has no Process(receive, result) entry in the type table although the program uses process types, so no pattern or receive filter accepts the top-level pid",
-               "case": lines[li], "configuration": name, "programs_affected": len({l for l, _ in untyped_entry})}
-        if f and f.get("status") == "known" and f.get("property") == ctx.pid:
-            ctx.violation(obj, finding_key="F70c08")
-        else:
-            ctx.violation(obj)
+    for (li, name) in entry_pid_rejected[:3]:
+        ctx.violation({"kind": "impl-violation", "statement": "F70 regression (fixed 5eb967d): the process tag of the entry function is in no row of the runtime tables (no pattern and no receive filter accepts the top-level process's own pid)",
+                       "case": lines[li], "configuration": name})
+    for li in range(entry_pid_at, entry_pid_at + len(entry_pid_probes)):
+        if not out[li].startswith("(compiled"):
+            ctx.violation({"kind": "impl-violation", "statement": "F70 regression probe does not compile", "case": lines[li], "real_output": out[li][:300]})
     for (li, na, nb, tk) in entry_lost[:4]:
         ctx.violation({"kind": "impl-violation", "statement": "has_type_entry lost: a tuple the configuration constructs has a Type::Tuple entry as compiled but none after packaging, so every runtime type test rejects it there",
                        "case": lines[li], "configurations": [na, nb], "tag": tk})
@@ -593,7 +602,7 @@ def run(ctx):
         "table_rows_compared": rows_compared, "distinct_nontrivial": nontrivial,
         "rule": "every source string of quiver-tests, std/*.qv, examples, spec.md code blocks (+ corpus/c08_sources.txt; thorough: 1500 sequenced pairs), each in up to three configurations (as compiled, tree-shaken, merged behind 0-2 earlier programs); non-trivial = distinct CompatibilityInput (SHA-1) with a non-empty table row and a union or partial type",
         "config_invariance_failures": len(config_failures), "constructible_tuple_entries_lost_by_packaging": len(entry_lost), "verdicts_differing_only_by_missing_type_entry": len(entry_dependent),
-        "missing_type_entry_samples": [{"case": lines[li], "configurations": [na, nb], "pattern": pk, "tag": tk} for (li, na, nb, pk, tk) in entry_dependent[:3]], "configurations_with_untyped_entry_process_F70c08": len(untyped_entry),
+        "missing_type_entry_samples": [{"case": lines[li], "configurations": [na, nb], "pattern": pk, "tag": tk} for (li, na, nb, pk, tk) in entry_dependent[:3]], "configurations_whose_entry_process_type_is_supplied_by_the_table_extension": len(untyped_entry), "entry_pid_probes": len(entry_pid_probes), "entry_pid_probes_rejected": len(entry_pid_rejected),
         "template_programs": len(tmpl), "template_configurations_executed": run_cfgs, "template_run_failures": run_failures,
         "e2e_cases_generated": len(e2e), "e2e_verdicts_compared": e2e_run, "e2e_mismatches": e2e_mismatch, "e2e_mismatches_matching_known_findings": known_hits, "e2e_mismatches_unmatched": unmatched, "e2e_pinned_probes": len(pinned),
         "e2e_outcomes": e2e_hist, "e2e_other_outcome_samples": odd_samples, "e2e_features": feat_hist,
